@@ -23,12 +23,12 @@ theorem sim_assignOp (o : Ops V) (op1 op2 : SV V) :
           · sim_auto
           · refine sim_bind (sim_get o s2) (fun af haf => ?_)
             refine sim_bind (sim_remove s1) (fun _ _ => ?_)
-            exact sim_create s1 (.list af) (by simp only; omega)
+            exact sim_create s1 (.list af)
         | num v => sim_auto
         | none => sim_auto
       · refine sim_bind (sim_get o s2) (fun af haf => ?_)
         cases op1 with
-        | tok s1 => exact sim_create s1 (.list af) (by simp only; omega)
+        | tok s1 => exact sim_create s1 (.list af)
         | num v => sim_auto
         | none => sim_auto
     | num v => sim_auto
@@ -66,9 +66,7 @@ theorem sim_funcOp (o : Ops V) (op1 op2 : SV V) (out : String) :
           simp only
           refine sim_bind (sim_aggOp o f s2) (fun v _ => ?_)
           refine sim_bind sim_size (fun k hk => ?_)
-          refine sim_bind (sim_create out (.list (List.replicate k v)) ?_) (fun _ _ => sim_pure _ trivial)
-          simp only [List.length_replicate]
-          omega
+          exact sim_bind (sim_create out (.list (List.replicate k v))) (fun _ _ => sim_pure _ trivial)
         | num v => sim_auto
         | none => sim_auto
       · sim_auto
@@ -139,39 +137,18 @@ theorem sim_purge : Sim n (fun _ => True) (purge (σ := St V)) (purge (σ := ATa
   unfold purge
   sim_auto
 
-theorem sim_purgeE : Sim n (fun _ => True) (purgeE (σ := St V)) (purgeE (σ := ATab V)) := by
-  unfold purgeE
-  sim_auto
-
 theorem sim_operateStr (o : Ops V) (rpn : List String) :
     Sim n (fun _ => True) (operateStr (σ := St V) o rpn) (operateStr (σ := ATab V) o rpn) := by
   unfold operateStr
-  exact sim_tryFinally (sim_evaluate o rpn) sim_purgeE
+  exact sim_tryFinally (sim_evaluate o rpn) sim_purge
 
-
-/-- a list handed to create / bracket assignment covers the track (Python raises IndexError mid-way otherwise
-and leaves a misaligned table: outside the property's domain) -/
-def OpOK (n : Nat) : Op V → Prop
-  | .create _ (.list l) => n ≤ l.length
-  | .setItem _ (.list l) => n ≤ l.length
-  | _ => True
 
 /-- one API call: the code's table and the specification table do the same thing -/
-theorem sim_step (o : Ops V) (op : Op V) (hok : OpOK n op) :
+theorem sim_step (o : Ops V) (op : Op V) :
     Sim n (fun _ => True) (step (σ := St V) o op) (step (σ := ATab V) o op) := by
   cases op with
-  | create nm init =>
-    unfold step
-    refine sim_bind (sim_create nm init ?_) (fun _ _ => sim_pure _ trivial)
-    cases init with
-    | scalar _ => trivial
-    | list l => exact hok
-  | setItem nm init =>
-    unfold step
-    refine sim_bind (sim_setItem nm init ?_) (fun _ _ => sim_pure _ trivial)
-    cases init with
-    | scalar _ => trivial
-    | list l => exact hok
+  | create nm init => unfold step; exact sim_bind (sim_create nm init) (fun _ _ => sim_pure _ trivial)
+  | setItem nm init => unfold step; exact sim_bind (sim_setItem nm init) (fun _ _ => sim_pure _ trivial)
   | update nm init => unfold step; sim_auto
   | remove nm => unfold step; sim_auto
   | setObs nm i v => unfold step; sim_auto
